@@ -13,9 +13,9 @@ from concurrent.futures import ThreadPoolExecutor
 
 from . import common as C
 
-FAMS = ["si", "int", "usr", "bvv", "str", "mrk"]
+FAMS = ["si", "int", "usr", "bvv", "str", "mrk", "esi"]
 # bounds: quick = the committed spec/ExprStore_<fam>.cfg; thorough overrides (MaxSteps, MaxLive, MaxAnn)
-THOROUGH = {"si": (6, 6, 2), "int": (7, 6, 1), "usr": (7, 6, 1), "bvv": (6, 6, 1), "str": (6, 6, 1), "mrk": (7, 6, 1)}
+THOROUGH = {"si": (6, 6, 2), "int": (7, 6, 1), "usr": (7, 6, 1), "bvv": (6, 6, 1), "str": (6, 6, 1), "mrk": (7, 6, 1), "esi": (6, 6, 1)}
 CODED_FAMS = ["si", "int", "usr", "bvv"]
 VERDICT = {"inj", "faithful", "stable", "handles", "outcome"}
 
